@@ -1,4 +1,5 @@
-from ctypes import Structure, c_double
+from ctypes import Structure, c_double, byref
+from . import clibrebound
 
 class Vec6d(Structure):
     _fields_ = [("x", c_double),
@@ -76,15 +77,15 @@ class Vec3d:
             return NotImplemented
     
     def rotate(self, q):
+        from .rotation import Rotation
         if not isinstance(q, Rotation):
             raise NotImplementedError
-        clibrebound.reb_vec3d_irotate(byref(_vec3d), q)
+        clibrebound.reb_vec3d_irotate(byref(self._vec3d), q)
         return self
 
     def normalize(self):
         clibrebound.reb_vec3d_normalize.restype = Vec3dBasic
-        r = clibrebound.reb_vec3d_normalize(self._vec3d)
-        self._vec3d = r._vec3d
+        self._vec3d = clibrebound.reb_vec3d_normalize(self._vec3d)
         return self
 
     def __getitem__(self, key):
